@@ -21,7 +21,7 @@ TECHNIQUE = 'offline history checker over recorded operation sequences against f
 RULE = ('files: multi-chunk multi-segment model files (contiguous, interleaved, strings, timestamps) and DAQmx files; histories of 20-60 '
         'ops; non-trivial = history with >=2 live generators interleaved with >=1 random read; distinct = (file signature, op-kind sequence)')
 ASSUMPTIONS = ['a generator created at step k must deliver the same chunk sequence as one created on a fresh file']
-REQUIRED = ['family:same-total', 'family:short-middle', 'family:scaled', 'family:long', 'ops', 'gen_next_checked', 'generators_drained', 'file_generators', 'channel_generators', 'family:model', 'family:daqmx']
+REQUIRED = ['family:staggered', 'family:very-long', 'chunks_inspected_after_advance', 'family:same-total', 'family:short-middle', 'family:scaled', 'family:long', 'ops', 'gen_next_checked', 'generators_drained', 'file_generators', 'channel_generators', 'family:model', 'family:daqmx']
 N = {'quick': 8000, 'thorough': 400000}
 KINDS = ['index', 'slice', 'read', 'new_gen', 'next_chan', 'next_file', 'read_unscaled']
 
@@ -37,6 +37,10 @@ def gen_cases(tier, seed):
         yield {'fam': 'scaled', 's': seed * 1000003 + i}
     for i in range(N[tier] // 10):
         yield {'fam': 'same-total', 's': seed * 1000003 + i}
+    for i in range(N[tier] // 10):
+        yield {'fam': 'staggered', 's': seed * 1000003 + i}
+    for i in range(max(16, N[tier] // 500)):
+        yield {'fam': 'very-long', 's': seed * 1000003 + i}
 
 
 def shard_setup(ctx):
@@ -65,8 +69,11 @@ def build(case):
     if case['fam'] == 'scaled':
         segs = scaled_file(rng)
         return M.encode_file(segs)[0], ('scaled',) + tuple(s.signature() for s in segs), [s.describe() for s in segs][:2], rng
-    if case['fam'] == 'long':
-        segs = long_file(rng)
+    if case['fam'] == 'staggered':
+        segs = staggered_file(rng)
+        return M.encode_file(segs)[0], ('staggered',) + tuple(s.signature() for s in segs), [s.describe() for s in segs][:4], rng
+    if case['fam'] in ('long', 'very-long'):
+        segs = long_file(rng) if case['fam'] == 'long' else very_long_file(rng)
         return M.encode_file(segs)[0], ('long', len(segs)) + tuple(s.signature() for s in segs[-3:]), {'segments': len(segs), 'last': segs[-1].describe()}, rng
     f, _ = DQ.build({'s': case['s']})
     return f.encode()[0], ('daqmx',) + f.signature(), f.describe(), rng
@@ -179,6 +186,69 @@ def long_file(rng):
     return segs
 
 
+def very_long_file(rng):
+    """More than 1000 segments; two or three channels whose per-segment counts differ only at single segments in the middle,
+    so that their cumulative offset arrays agree at both ends (and in their printed, abbreviated form)."""
+    nch = rng.randint(2, 3)
+    nseg = rng.randint(1005, 1200)
+    paths = [M.qpath('g', 'c%d' % i) for i in range(nch)]
+    t = rng.choice(['i32', 'u8', 'f64'])
+    n0 = rng.choice([1, 2])
+    bumps = {}
+    lo, hi = nseg // 8, nseg - nseg // 8
+    for k in range(nch):
+        while True:
+            a = rng.randint(lo, hi)
+            if all(abs(a - b) >= 2 for b in bumps):
+                bumps[a] = k
+                break
+    segs = []
+    for si in range(nseg):
+        s = M.Seg()
+        s.endian = '<'
+        prev = segs[-1].active if segs else None
+        if si == 0:
+            s.listing = [(p, 'full', (t, n0, None)) for p in paths]
+            s.active = [(p, True, (t, n0, None)) for p in paths]
+        elif si in bumps or si - 1 in bumps:
+            k = bumps.get(si, bumps.get(si - 1))
+            cnt = n0 + 1 if si in bumps else n0
+            s.new_obj_list = False
+            s.listing = [(paths[k], 'full', (t, cnt, None))]
+            s.active = [(q, True, (t, cnt, None)) if q == paths[k] else e for (q, hd, ix), e in zip(prev, prev)]
+        else:
+            s.has_meta, s.new_obj_list = False, False
+            s.active = list(prev)
+        s.chunks.append({q: M.rand_values(rng, ix[0], ix[1]) for q, ix in s.data_objects()})
+        segs.append(s)
+    return segs
+
+
+def staggered_file(rng):
+    """Two to four channels with the same sequence of per-segment value counts, each starting in a different segment:
+    their cumulative offset arrays are equal while their first segments differ."""
+    nch = rng.randint(2, 4)
+    run = rng.randint(2, 5)
+    counts = [rng.choice([1, 2, 3, 4]) for _ in range(run)]
+    starts = [0] + sorted(rng.randint(1, 3) for _ in range(nch - 1))
+    if rng.random() < 0.5:
+        rng.shuffle(starts)
+    types = [rng.choice(['i32', 'f64', 'u8', 'i16']) for _ in range(nch)]
+    paths = [M.qpath('g', 'c%d' % i) for i in range(nch)]
+    nseg = max(starts) + run
+    segs = []
+    for si in range(nseg):
+        s = M.Seg()
+        s.endian = '<'
+        s.new_obj_list = True
+        act = [(paths[i], 'full', (types[i], counts[si - starts[i]], None)) for i in range(nch) if 0 <= si - starts[i] < run]
+        s.listing = act
+        s.active = [(q, True, ix) for q, hd, ix in act]
+        s.chunks.append({q: M.rand_values(rng, ix[0], ix[1]) for q, ix in s.data_objects()})
+        segs.append(s)
+    return segs
+
+
 def chunk_images(chunk, chans):
     out = {}
     for (g, c) in chans:
@@ -285,10 +355,10 @@ def run_case(case, ctx):
                     record(kind, (key, o, l), C.img_equal(C.image(got), want), {'why': 'wrong-unscaled-values', 'got': C.short(C.image(got)), 'want': C.short(want)})
             elif kind == 'new_gen':
                 if rng.random() < 0.5:
-                    gens.append({'kind': 'chan', 'key': key, 'it': ch.data_chunks(), 'delivered': 0, 'done': False})
+                    gens.append({'kind': 'chan', 'key': key, 'it': ch.data_chunks(), 'delivered': 0, 'done': False, 'hold': rng.random() < 0.4})
                     ctx.count('channel_generators')
                 else:
-                    gens.append({'kind': 'file', 'key': None, 'it': tf.data_chunks(), 'delivered': 0, 'done': False})
+                    gens.append({'kind': 'file', 'key': None, 'it': tf.data_chunks(), 'delivered': 0, 'done': False, 'hold': rng.random() < 0.4})
                     ctx.count('file_generators')
                 history.append((len(history), 'new_gen', gens[-1]['kind'], stream.position(), True))
             else:
@@ -317,6 +387,8 @@ def run_case(case, ctx):
 
 
 def advance(ctx, g, fresh, fresh_file, chans, record, kind):
+    """Advance one iterator by one step. Generators created with hold=True have each chunk inspected only after the
+    iterator has moved on to the next chunk (or ended), the way list(f.data_chunks()) users see them."""
     j = g['delivered']
     seq = fresh[g['key']]['chunks'] if g['kind'] == 'chan' else fresh_file
     try:
@@ -324,13 +396,25 @@ def advance(ctx, g, fresh, fresh_file, chans, record, kind):
     except StopIteration:
         g['done'] = True
         ctx.count('gen_next_checked')
+        if g.get('held') is not None:
+            inspect(ctx, g, seq, chans, record, kind + '_held', *g.pop('held'))
         record(kind, (g['kind'], g['key'], j), j == len(seq), {'why': 'iterator-ended-early', 'delivered': j, 'expected_chunks': len(seq)})
         return
     ctx.count('gen_next_checked')
     g['delivered'] += 1
+    if g.get('held') is not None:
+        ctx.count('chunks_inspected_after_advance')
+        inspect(ctx, g, seq, chans, record, kind + '_held', *g.pop('held'))
     if j >= len(seq):
         record(kind, (g['kind'], g['key'], j), False, {'why': 'iterator-delivered-extra-chunk', 'delivered': j + 1, 'expected_chunks': len(seq)})
         return
+    if g.get('hold'):
+        g['held'] = (j, chunk)
+    else:
+        inspect(ctx, g, seq, chans, record, kind, j, chunk)
+
+
+def inspect(ctx, g, seq, chans, record, kind, j, chunk):
     if g['kind'] == 'chan':
         got = (chunk.offset, C.image(chunk[:]))
         ok = got[0] == seq[j][0] and C.img_equal(got[1], seq[j][1])
